@@ -43,8 +43,7 @@ BodyOk(k, b, c) ==
       [] k \in {"hint1", "hint1cr"} -> c \notin {"lf", "cr"}
       [] k = "dollar" -> c # "dollar"
       [] k = "dollartag" -> c # "dollar"
-BodyEndOk(k, b) == CASE k \in {"cmtm", "hintm"} -> ~(Len(b) >= 1 /\ b[Len(b)] = "star")
-                     [] k = "str" -> TrailRun(b, Len(b), "sq") % 2 = 0
+BodyEndOk(k, b) == CASE k = "str" -> TrailRun(b, Len(b), "sq") % 2 = 0
                      [] k = "dqname" -> TrailRun(b, Len(b), "dq") % 2 = 0
                      [] k = "btname" -> TrailRun(b, Len(b), "bt") % 2 = 0
                      [] OTHER -> TRUE
